@@ -346,11 +346,16 @@ def merge_cases():
         for kind in kinds:
             def run(cx, mode=mode, kind=kind):
                 x, tr, cut = arrange(cx, mode, kind)
-                rewrite.WHILE_CUTS[LOOP_KEY] = cut
+                # the handler the transformer dispatches an AND to, whatever its name
+                handler = getattr(type(tr)._get_method(tr, x), "__func__", None)
+                if handler is None or not getattr(handler, "__module__", "").startswith("luqum"):
+                    raise EngineUnsupported("no handler of OpenRangeTransformer for AndOperation could be resolved")
+                key = "%s.%s#0" % (handler.__module__, handler.__qualname__)
+                rewrite.WHILE_CUTS[key] = cut
                 try:
-                    out = list(U.OpenRangeTransformer.visit_and_operation(tr, x, {"parents": ()}))
+                    out = list(handler(tr, x, {"parents": ()}))
                 finally:
-                    rewrite.WHILE_CUTS.pop(LOOP_KEY, None)
+                    rewrite.WHILE_CUTS.pop(key, None)
                 if not cut.entered:
                     raise EngineUnsupported("the loop under a cut-point contract was not reached: the code was restructured")
                 if mode != "exit":
@@ -483,6 +488,8 @@ def plan(tier, seed):
     pl.cases = conversion_cases() + side_cases() + merge_cases()
     pl.canaries = [canary()]
     pl.finite = [("C12-U/uniform-loops", lambda: uniform.check(LOOPS))]
+    from vfkit import lean as _leanc
+    pl.finite.append(("A6/Lean re-check of the composition lemmas L-IND", _leanc.compose_check('L-IND')))
 
     def sweep():
         return bounded.run_native("c12_merge", {"max_operands": 4 if tier == "quick" else 5,
@@ -495,7 +502,7 @@ def plan(tier, seed):
     pl.replay_builder = replay_builder
     pl.assumptions = c01.ASSUMPTIONS
     pl.trusted_base = c01.TRUSTED
-    pl.lemmas = ["L-IND (paper): Res12 per class => every comparison is replaced by a range with the same bound and "
+    pl.lemmas = ["L-IND (Lean: lemmas/Compose.lean fold_ind; model link assumed): Res12 per class => every comparison is replaced by a range with the same bound and "
                  "inclusiveness and * on the other side, nothing else changes, no comparison is left, input untouched",
                  "merge loop (cut-point invariant, for one arbitrary field value with uninterpreted bound atoms, hence for every "
                  "value and every ordering of values): init / step on a generic converted operand (one-sided same side, "
